@@ -362,6 +362,43 @@ def check_seed(ctx):
         problems.append('genrand64 does not regenerate when mti >= NN')
     ctx.ob('R8.5-seed', 'mt_seed', not problems, ctx.loc('random', f),
            'seeding writes every word of the generator state, the mag table and the index as a function of the seed alone', '; '.join(problems))
+    # generator state = every module-level variable of random.pyx that some function writes; seeding must (re)write all of it
+    rmod = ctx.prog.mod('random')
+    module_vars = set()
+    for n in rmod.tree.body:
+        if isinstance(n, ast.AnnAssign) and isinstance(n.target, ast.Name):
+            module_vars.add(n.target.id)
+        elif isinstance(n, ast.Assign):
+            for t in n.targets:
+                if isinstance(t, ast.Name):
+                    module_vars.add(t.id)
+
+    def written(fn):
+        g = set()
+        for n in ast.walk(fn):
+            if isinstance(n, ast.Global):
+                g |= set(n.names)
+        w = set()
+        for n in ast.walk(fn):
+            if isinstance(n, (ast.Assign, ast.AugAssign, ast.For)):
+                tg = n.targets if isinstance(n, ast.Assign) else [n.target]
+                for t in tg:
+                    base = t
+                    while isinstance(base, ast.Subscript):
+                        base = base.value
+                    if isinstance(base, ast.Name) and base.id in module_vars and (base.id in g or isinstance(t, ast.Subscript)):
+                        w.add(base.id)
+        return w
+    state = {}
+    for n in rmod.tree.body:
+        if isinstance(n, ast.FunctionDef) and n.name != 'mt_seed':
+            for v in written(n):
+                state.setdefault(v, n.name)
+    seeded = written(f)
+    missing = sorted(v for v in state if v not in seeded)
+    ctx.ob('R8.5-seed', 'generator-state', not missing and {'mt', 'mti'} <= set(state), ctx.loc('random', f),
+           'every module-level variable of the random module that a drawing function writes (the hidden generator state) is rewritten by mt_seed',
+           '; '.join('%s is written by %s() but not reset by mt_seed: it survives re-seeding' % (v, state[v]) for v in missing) or 'state variables: %s' % sorted(state))
     f = ctx.fn('random:seed_random')
     s = f.args.args[0].arg
     ifs = [x for x in f.body if isinstance(x, ast.If)]
